@@ -33,13 +33,16 @@ class KaniUnit:
 
 
 class VerusUnit:
-    def __init__(self, name, tmpl, obligation, fns, paired_kani=(), timeout=600):
+    def __init__(self, name, tmpl, obligation, fns, paired_kani=(), timeout=600, twins_equivalent=False):
         self.name = name
         self.tmpl = tmpl                # template rel to /verif
         self.obligation = obligation
         self.fns = fns
         self.paired_kani = list(paired_kani)  # harness names that give counterexamples for the same functions
         self.timeout = timeout
+        # True iff the paired Kani harnesses are complete proofs of the SAME contract on the real code: then a Verus failure with
+        # passing twins is a proof-engineering failure (reported undecided), not a violation
+        self.twins_equivalent = twins_equivalent
 
 
 class Property:
